@@ -56,14 +56,14 @@ type SelCall struct {
 }
 
 type StatRec struct {
-	Step   int           `json:"step"`
-	At     time.Duration `json:"at"`
-	Kind   string        `json:"kind"` // request | conn | translator
-	Name   string        `json:"name"`
-	URL    string        `json:"url"`
-	Status string        `json:"status"`
-	Delta  int           `json:"delta"`
-	Bytes  int64         `json:"bytes"`
+	Step   int                           `json:"step"`
+	At     time.Duration                 `json:"at"`
+	Kind   string                        `json:"kind"` // request | conn | translator
+	Name   string                        `json:"name"`
+	URL    string                        `json:"url"`
+	Status string                        `json:"status"`
+	Delta  int                           `json:"delta"`
+	Bytes  int64                         `json:"bytes"`
 	Tr     *ports.TranslatorRequestEvent `json:"-"`
 }
 
